@@ -93,7 +93,9 @@ def compile_many(work, name, sources, flags, cc='gcc', extra_inc=(), link_flags=
 
     def one(job):
         s, o = job
-        cmd = [cc, std, '-w', '-D' + GUARD] + list(flags) + inc + ['-c', s, '-o', o]
+        # -fcommon: a tentative definition leaking from a header into two units must not stop the monitors from running
+        # (C20 links its own units without it and reports such leaks)
+        cmd = [cc, std, '-w', '-fcommon', '-D' + GUARD] + list(flags) + inc + ['-c', s, '-o', o]
         rc, so, se = run(cmd, timeout=300)
         return rc, se, s
 
@@ -294,6 +296,8 @@ def finish(prop, level, tier, seed, obs, coverage, assumptions, t0, min_evals=1,
     cov['known_findings_seen'] = sorted(seen_known)
     if obs.inconclusive:
         cov['inconclusive'] = obs.inconclusive[:10]
+    if obs.notes and 'notes' not in cov:
+        cov['notes'] = sorted(set(obs.notes))[:20]
     ev = dict(property_id=prop, tier=tier, seed=int(seed), level=level, coverage=cov,
               assumptions=assumptions, wall_s=round(time.time() - t0, 2), violations=len(unknown))
     if extra:
@@ -324,3 +328,36 @@ def finish(prop, level, tier, seed, obs, coverage, assumptions, t0, min_evals=1,
         prop, {0: 'HELD', 1: 'VIOLATED', 2: 'INCONCLUSIVE'}[rc], tier, seed, cov.get('evaluations', 0),
         cov.get('distinct_nontrivial'), len(unknown), len(seen_known), time.time() - t0))
     return rc
+
+
+def compile_ilp32(work, name, sources):
+    """Build a monitor as a freestanding 32-bit (ILP32, i386) static executable: no 32-bit libc development files exist in
+    the sandbox, so mon/platform_ilp32.c supplies _start, system calls, libc byte functions and 64-bit division."""
+    srcs = [s for s in sources if os.path.basename(s) != 'platform_native.c'] + [os.path.join(VERIF, 'mon', 'platform_ilp32.c')]
+    rc, so, se = run(['gcc', '-print-file-name=include'])
+    gi = so.strip()
+    flags = ['-m32', '-O2', '-ffreestanding', '-fno-pic', '-fno-stack-protector', '-nostdinc', '-isystem', gi,
+             '-isystem', os.path.join(VERIF, 'tools', 'stubs')]
+    return compile_many(work, name, srcs, flags, link_flags=['-m32', '-nostdlib', '-static', '-no-pie'])
+
+
+def run_variant(obs, binary, jobs, seed, label, timeout=1200):
+    """Run monitor jobs in an alternative build of the same sources; fold results into obs with a [built-<label>] key suffix."""
+    o2 = Obs()
+    if binary is None:
+        obs.notes.append('variant %s skipped (could not be built in this sandbox)' % label)
+        return o2
+
+    def one(env):
+        e = dict(env)
+        e.setdefault('VP_SEED', seed)
+        return run_monitor(o2, binary, e, tag=label, sanitizer_env=False, timeout=timeout)
+    run_parallel(one, jobs)
+    for k, x in o2.viol.items():
+        obs.add_viol('%s[built-%s]' % (k, label), x['details'][0] if x['details'] else None, count=x['count'], source=x.get('source'))
+    obs.procs += o2.procs
+    obs.ended += o2.ended
+    obs.inconclusive += o2.inconclusive
+    obs.stat('evals', o2.stats.get('evals', 0))
+    obs.stat('ops', o2.stats.get('ops', 0))
+    return o2
